@@ -14,6 +14,10 @@ pub enum Op {
     Drop,
     /// user code panics while the injector is alive; the panic is caught outside its scope
     Panic,
+    /// an installation the library must refuse or cannot complete (0 signature mismatch, 1 null
+    /// pointer, 2 boolean on a non-bool function, 3 no memory for the trampoline, 4 mprotect
+    /// fails); its panic propagates out of the injector's scope
+    Refuse(u8),
 }
 
 pub fn op_name(o: &Op) -> String {
@@ -21,10 +25,23 @@ pub fn op_name(o: &Op) -> String {
         Op::Install(t, k) => format!("Install({t:?},{k:?})"),
         Op::Drop => "Drop".into(),
         Op::Panic => "PanicHere".into(),
+        Op::Refuse(k) => format!("RefusedInstall({})", REFUSALS[*k as usize]),
     }
 }
 
+pub const REFUSALS: [&str; 5] = ["signature-mismatch", "null-pointer", "boolean-on-non-bool", "allocation-exhausted", "mprotect-fails"];
+
 /// The alphabet, simplest first (so the first counterexample is also the shortest).
+pub fn alphabet_r(with_fs: bool, small: bool, refusals: bool) -> Vec<Op> {
+    let mut v = alphabet(with_fs, small);
+    if refusals {
+        for k in 0..5 {
+            v.push(Op::Refuse(k));
+        }
+    }
+    v
+}
+
 pub fn alphabet(with_fs: bool, small: bool) -> Vec<Op> {
     let mut v = vec![
         Op::Install(T::F0, K::RawA),
@@ -72,7 +89,7 @@ pub struct Model {
 impl Model {
     pub fn enabled(&self, o: &Op) -> bool {
         match o {
-            Op::Install(..) => true, // creates the injector when none is alive
+            Op::Install(..) | Op::Refuse(_) => true, // creates the injector when none is alive
             Op::Drop | Op::Panic => self.alive,
         }
     }
@@ -85,7 +102,12 @@ impl Model {
                 }
                 self.stacks[*t as usize].push(*k);
             }
-            Op::Drop | Op::Panic => {
+            Op::Drop | Op::Panic | Op::Refuse(_) => {
+                if let Op::Refuse(_) = o {
+                    if !self.alive {
+                        self.lifetimes += 1;
+                    }
+                }
                 self.alive = false;
                 for s in self.stacks.iter_mut() {
                     s.clear();
@@ -310,6 +332,26 @@ fn snapshot_now() -> Vec<Vec<u8>> {
     envx::watch_snapshot()
 }
 
+/// An installation on F1 that the library must refuse / cannot complete.
+fn refused_install(w: &World, injector: &mut InjectorPP, k: u8) {
+    use crate::inj;
+    let a = w.addr[T::F1 as usize];
+    let f1: fn() -> u32 = unsafe { std::mem::transmute::<usize, fn() -> u32>(a as usize) };
+    match k {
+        0 => injector.when_called(inj::func!(f1, fn() -> u32)).will_execute_raw(inj::func!(fk_g_a, fn(u32) -> u32)),
+        1 => injector.when_called(inj::func!(f1, fn() -> u32)).will_execute_raw(unsafe { FuncPtr::new(std::ptr::null(), std::any::type_name::<fn() -> u32>()) }),
+        2 => injector.when_called(inj::func!(f1, fn() -> u32)).will_return_boolean(true),
+        3 => {
+            envx::fail_mmap_from(Some(0));
+            injector.when_called(inj::func!(f1, fn() -> u32)).will_execute_raw(inj::func!(fk_f1_a, fn() -> u32))
+        }
+        _ => {
+            envx::fail_mprotect_at(Some(0));
+            injector.when_called(inj::func!(f1, fn() -> u32)).will_execute_raw(inj::func!(fk_f1_a, fn() -> u32))
+        }
+    }
+}
+
 /// Execute one history on the implementation and judge every step.
 pub fn run_history(w: &World, o: &Opts, hist: &[Op]) -> HistResult {
     envx::reset();
@@ -329,6 +371,7 @@ pub fn run_history(w: &World, o: &Opts, hist: &[Op]) -> HistResult {
     while idx < hist.len() {
         // one injector lifetime; it ends by Drop, by Panic, or with the history (implicit drop)
         ctx.phase = 0x1000;
+        let mut refused: Option<u8> = None;
         let r = catch_unwind(AssertUnwindSafe(|| {
             let mut injector = InjectorPP::new();
             loop {
@@ -352,6 +395,37 @@ pub fn run_history(w: &World, o: &Opts, hist: &[Op]) -> HistResult {
                     }
                     Op::Drop => return false,
                     Op::Panic => panic!("user panic inside the injector's scope"),
+                    Op::Refuse(k) => {
+                        // the refused target is F1 (its neighbour F0 may carry a live fake)
+                        let before = w.image(T::F1);
+                        let r = catch_unwind(AssertUnwindSafe(|| refused_install(w, &mut injector, k)));
+                        envx::fail_mmap_from(None);
+                        envx::fail_mprotect_at(None);
+                        match r {
+                            Ok(()) => {
+                                ctx.viol("C05", &format!("refusal-missing:{}", REFUSALS[k as usize]), format!("an installation that must fail ({}) returned normally", REFUSALS[k as usize]));
+                                return true;
+                            }
+                            Err(p) => {
+                                let msg = payload_text(p.as_ref());
+                                // only the classes the properties name are judged: signature mismatch / null pointer
+                                let l = msg.to_lowercase();
+                                let ok = match k {
+                                    0 | 2 => l.contains("signature") && l.contains("mismatch"),
+                                    1 => l.contains("null"),
+                                    _ => true,
+                                };
+                                if !ok {
+                                    ctx.viol("C09", &format!("refusal-message:{}", REFUSALS[k as usize]), format!("refused installation ({}) panicked with {msg:?}, expected a signature-mismatch / null-pointer message", REFUSALS[k as usize]));
+                                }
+                                if w.image(T::F1) != before {
+                                    ctx.viol("C05", &format!("refused-target-modified:{}", REFUSALS[k as usize]), format!("the refused installation ({}) changed the bytes of its target", REFUSALS[k as usize]));
+                                }
+                                refused = Some(k);
+                                std::panic::resume_unwind(p);
+                            }
+                        }
+                    }
                 }
                 if idx == hist.len() {
                     return true;
@@ -367,8 +441,13 @@ pub fn run_history(w: &World, o: &Opts, hist: &[Op]) -> HistResult {
             Err(p) => {
                 let msg = payload_text(p.as_ref());
                 fnv(&mut ctx.res.digest_api, b"panic");
-                if !msg.starts_with("user panic") {
+                if !msg.starts_with("user panic") && refused.is_none() {
                     ctx.viol("C05", "unexpected-panic", format!("lifetime ended with a panic the history did not ask for: {msg}"));
+                }
+                if refused == Some(4) {
+                    // an installation that failed in mprotect abandons its trampoline: outside every
+                    // given property; give the page back so that later histories start clean
+                    envx::forget_owned();
                 }
             }
         }
